@@ -286,11 +286,57 @@ func vfGenClientSrc(t *rapid.T, label string) vfClientSrc {
 		return vfClientSrc{Kind: "parrot", Name: p.Name, ID: p.ID}
 	default:
 		p := vfGenParrot(t, label+"_parrot")
+		if rapid.Bool().Draw(t, label+"_capture_reordered") {
+			// a capture of a client that orders its extensions differently (padding in the middle, ...)
+			if src, ok := vfFingerprintedReorderedSrc(p, rapid.Uint64().Draw(t, label+"_capture_order")); ok {
+				return src
+			}
+		}
 		if src, ok := vfFingerprintedSrc(p); ok {
 			return src
 		}
 		return vfClientSrc{Kind: "parrot", Name: p.Name, ID: p.ID}
 	}
+}
+
+// vfFingerprintedReorderedSrc is vfFingerprintedSrc on a capture whose extensions were permuted (pre_shared_key stays
+// last): the same offer as the parrot's, in an order no built-in parrot uses.
+func vfFingerprintedReorderedSrc(p vfParrot, order uint64) (vfClientSrc, bool) {
+	cp, _ := vfPipe()
+	defer cp.Close()
+	cfg := vfClientConfig("fingerprint.example")
+	cfg.OmitEmptyPsk = true
+	uc := UClient(cp, cfg, p.ID)
+	if err := uc.BuildHandshakeState(); err != nil {
+		return vfClientSrc{}, false
+	}
+	h := vfParseClientHello(uc.HandshakeState.Hello.Raw)
+	if len(h.Violations) > 0 || len(h.Exts) < 3 {
+		return vfClientSrc{}, false
+	}
+	n := len(h.Exts)
+	if h.Exts[n-1].Type == 41 {
+		n--
+	}
+	x := order | 1
+	for i := n - 1; i > 0; i-- { // Fisher-Yates driven by the drawn value
+		x = x*6364136223846793005 + 1442695040888963407
+		j := int((x >> 33) % uint64(i+1))
+		h.Exts[i], h.Exts[j] = h.Exts[j], h.Exts[i]
+	}
+	raw := vfSerializeHello(h)
+	rec := append([]byte{22, 3, 1, byte(len(raw) >> 8), byte(len(raw))}, raw...)
+	mk := func() *ClientHelloSpec {
+		spec, err := (&Fingerprinter{AllowBluntMimicry: true}).FingerprintClientHello(rec)
+		if err != nil {
+			return nil
+		}
+		return spec
+	}
+	if mk() == nil {
+		return vfClientSrc{}, false
+	}
+	return vfClientSrc{Kind: "fingerprinted", Name: p.Name + "/reordered", ID: HelloCustom, SpecFn: mk, SeedHx: fmt.Sprintf("%x", order)}, true
 }
 
 // vfFingerprintedSrc builds the parrot's hello once, fingerprints the record and returns the resulting spec as a source.
